@@ -134,6 +134,9 @@ def gen_netlist(rng: random.Random, max_comps=5, max_pins=4, kind="random", min_
     # force some multi-links / cycles with fixed probability
     if nc >= 2 and rng.random() < 0.4:
         a, b = rng.sample(range(nc), 2)
+        wide = [i for i in range(nc) if comps[i]["n"] >= 3]
+        if len(wide) >= 2 and rng.random() < 0.6:
+            a, b = rng.sample(wide, 2)         # three or more links between one pair, declared in scrambled pin order
         pa = [(a, k) for k in range(comps[a]["n"]) if (a, k) not in used]
         pb = [(b, k) for k in range(comps[b]["n"]) if (b, k) not in used]
         rng.shuffle(pa)
